@@ -80,11 +80,12 @@ class Sweep(metaclass=abc.ABCMeta):
 
     def __add__(self, other: Sweep) -> Sweep:
         sweeps: list[Sweep] = []
-        if isinstance(self, Zip):
+        # Only a plain Zip may be flattened: a ZipLongest operand has to keep its own semantics.
+        if type(self) is Zip:
             sweeps.extend(self.sweeps)
         else:
             sweeps.append(self)
-        if isinstance(other, Zip):
+        if type(other) is Zip:
             sweeps.extend(other.sweeps)
         elif isinstance(other, Sweep):
             sweeps.append(other)
